@@ -200,7 +200,9 @@ def summarize(agg):
                 e[o["verdict"]] += 1
                 e["secs"] += o["secs"]
                 e["solvers"][o["solver"]] += 1
-                if o["verdict"] == "undecided" or (o["verdict"] != "discharged" and len(e["examples"]) < 3):
+                # the cap is per verdict: three instances of a listed finding must not crowd out a different refutation
+                if o["verdict"] == "undecided" or (o["verdict"] != "discharged"
+                                                   and sum(1 for x in e["examples"] if x["verdict"] == o["verdict"]) < 3):
                     e["examples"].append(o)
         out[name] = by
     return out
